@@ -3,13 +3,13 @@
 
 #[cfg(kani)]
 macro_rules! vassert {
-    ($c:expr, $m:literal) => {
-        assert!($c, $m)
+    ($c:expr, $m:expr) => {
+        kani::assert($c, $m)
     };
 }
 #[cfg(not(kani))]
 macro_rules! vassert {
-    ($c:expr, $m:literal) => {
+    ($c:expr, $m:expr) => {
         if !($c) {
             crate::input::verif::native::fail($m)
         }
@@ -17,13 +17,13 @@ macro_rules! vassert {
 }
 #[cfg(kani)]
 macro_rules! vcover {
-    ($c:expr, $m:literal) => {
-        kani::cover!($c, $m)
+    ($c:expr, $m:expr) => {
+        kani::cover($c, $m)
     };
 }
 #[cfg(not(kani))]
 macro_rules! vcover {
-    ($c:expr, $m:literal) => {
+    ($c:expr, $m:expr) => {
         if $c {
             crate::input::verif::native::cover($m)
         }
